@@ -491,6 +491,7 @@ impl Monitor for C06 {
             ("read", tier.pick(6000000, 600000000)),
             ("corpus", tier.pick(400_000, 8_000_000)),
             ("api", tier.pick(1_000_000, 20_000_000)),
+            ("big", tier.pick(30_000, 1_500_000)),
         ]
     }
 
@@ -512,6 +513,20 @@ impl Monitor for C06 {
                 o.start = StartSel::Eth;
                 let case = gen::gen_case(rng, &o);
                 self.starting_points(rep, &case);
+            }
+            "big" => {
+                let mut o = if rng.bool() { GenOpts::clean() } else { GenOpts::hostile() };
+                o.start = if rng.bool() { StartSel::Eth } else { StartSel::Ip };
+                gen::set_big(true);
+                let case = gen::gen_case(rng, &o);
+                gen::set_big(false);
+                if case.bytes.len() > 60_000 {
+                    rep.count("big_cases");
+                }
+                self.starting_points(rep, &case);
+                if case.start == Start::Ip {
+                    self.ip_siblings(rep, &case.bytes);
+                }
             }
             "ip" => {
                 let mut o = GenOpts::hostile();
